@@ -50,6 +50,12 @@ PROPS = {
                      "cowclone", "detach", "setcow", "dig", "card", "empty", "of"}},
     "C03": {"suites": [("query", 1.0), ("kernq", 0.3)], "theorems": L1_QUERY,
             "owns": {"card", "empty", "has", "min", "max", "rank", "sel", "cir", "iwi", "eq", "toarr", "toexarr", "chkeq", "dig", "kern"}},
+    "C04": {"suites": [("iter", 1.0), ("iterun", 1.0)],
+            "theorems": L1_NBR[:4] + ["RModel.BSet.rankLt_eq_count", "RModel.BSet.card_eq_rankLt", "RModel.BSet.select_spec",
+                                      "RModel.BSet.select_none", "RModel.BSet.mem_toList", "RModel.BSet.toList_sorted",
+                                      "RModel.BSet.mem_inter", "RModel.BSet.mem_xor", "RModel.BSet.canon_ext"],
+            "owns": {"it", "rit", "mit", "uit", "reinit", "hasnext", "next?", "next!", "peek?", "peek!", "adv", "advrel", "many",
+                     "manyhs", "drain", "iterate", "values", "backward", "unset", "ranges"}},
     "C05": {"suites": [("ser", 1.0), ("thresh", 1.0)],
             "theorems": ["RModel.Impl.encode_length", "RModel.Impl.decode_encode", "RModel.Impl.prefix_rejected",
                          "RModel.Impl.decode_no_panic", "RModel.Impl.roundtrip_wf", "RModel.BSet.canon_ext"] + F_SERIAL,
